@@ -18,4 +18,4 @@ echo "== build WITH the change"; (cd $wt && go build ./... && echo build-ok)
 echo "== demo WITH the change"
 (cd $wt && go test -vet=off -count=1 -timeout 600s -run "$rx" $pkg 2>&1 | grep -E "^(ok|FAIL|---|panic)" | head -8)
 echo "== existing suite WITH the change (demo files removed)"
-(cd $wt && git ls-files --others --exclude-standard | xargs -r rm -f; go test -vet=off -count=1 -timeout 900s ./... 2>&1 | grep -v "no test files" | grep -E "^(ok|FAIL|---)" | head -20)
+(cd $wt && git ls-files --others --exclude-standard | xargs -r rm -f; go test -vet=off -count=1 -timeout 900s ./... 2>&1 | grep -v "no test files" | grep -E "^(ok|FAIL|---)|^ +--- FAIL" | head -20)
